@@ -98,6 +98,9 @@ def oracle(stream, header, ops, obs):
         for (s, t, w) in real:
             if not any((x == s and y == t and z == w) or (x == t and y == s and z == w) for (x, y, z) in all_edges):
                 return bad(k, "mst-edge-is-not-an-edge-of-the-graph-with-that-weight", (s, t, w))
+            # Kruskal copies source and target from the edge reference: on a directed graph the element must be an edge s -> t
+            if name == "kruskal" and v["directed"] and not any(x == s and y == t and z == w for (x, y, z) in all_edges):
+                return bad(k, "mst-edge-of-a-directed-graph-is-reported-reversed", (s, t, w))
         # acyclic
         cnt_f, _ = forest_weight(nodes, real)
         if cnt_f != len(real):
